@@ -4,7 +4,11 @@
 //! single request of at least `REFUSE` bytes is refused (null → `handle_alloc_error` → abort of the batch
 //! process), and so is a `realloc` that grows a block which already holds at least `RUNAWAY_OLD` bytes: that is
 //! geometric growth of a buffer that was actually filled, i.e. unbounded output from a bounded (≤ a few 100 kB)
-//! input. The reason of a refusal is written to the shared page *before* null is returned, so the supervisor can
+//! input. The heap a probe holds at one time (bytes allocated minus bytes freed since the probe was armed, any
+//! block size) is bounded by `LIVE_CAP` in the same way: a count field that makes a decoder build millions of
+//! small blocks is a memory request like any other, and what touching gigabytes costs in CPU time depends on how
+//! much memory the machine has free at that moment (page reclaim is charged to the faulting process), so it must
+//! not reach the CPU-budget monitor. The reason of a refusal is written to the shared page *before* null is returned, so the supervisor can
 //! tell "length field asked for more memory than the monitor grants" (resource limit: inconclusive, the property
 //! does not bound memory) from "runaway growth" (never terminates: violation) from any other abort.
 
@@ -26,7 +30,8 @@ pub struct Shared {
     pub progress: AtomicU64,
     /// size of the refused request (0 = none refused)
     pub refused_size: AtomicU64,
-    /// 1 = single request ≥ REFUSE, 2 = runaway realloc, 3 = the system allocator returned null (RLIMIT_AS)
+    /// 1 = single request ≥ REFUSE, 2 = runaway realloc, 3 = the system allocator returned null (RLIMIT_AS),
+    /// 4 = the heap held by the probe would exceed LIVE_CAP
     pub refused_kind: AtomicU64,
     /// size of the block that was to be grown (runaway realloc)
     pub refused_old: AtomicU64,
@@ -51,12 +56,42 @@ pub struct Shared {
     /// `file:line: message` of the last panic (for aborts that follow a panic)
     pub panic_len: AtomicU64,
     pub panic_text: [std::sync::atomic::AtomicU8; 768],
+    /// largest heap a probe of the batch held at one time (bytes above what was live when it was armed), over the
+    /// probes that returned, and the same over valid (unmutated) inputs
+    pub max_probe_live_heap: AtomicU64,
+    pub max_valid_live_heap: AtomicU64,
 }
 
 pub static SHARED: AtomicPtr<Shared> = AtomicPtr::new(std::ptr::null_mut());
 pub static OBSERVE: AtomicUsize = AtomicUsize::new(16 << 20);
 pub static REFUSE: AtomicUsize = AtomicUsize::new(64 << 20);
 pub static RUNAWAY_OLD: AtomicUsize = AtomicUsize::new(16 << 20);
+/// Most heap one probe may hold at a time, in bytes above what was live when it was armed.
+pub static LIVE_CAP: AtomicUsize = AtomicUsize::new(256 << 20);
+/// Bytes currently allocated through `Mon` by this process (counted whether armed or not, so that blocks freed
+/// during a probe balance), its value when the probe in progress was armed, and the peak above that value.
+static LIVE: AtomicUsize = AtomicUsize::new(0);
+static BASE: AtomicUsize = AtomicUsize::new(0);
+static PEAK: AtomicUsize = AtomicUsize::new(0);
+
+/// Heap held above the armed baseline (blocks that predate the probe may be freed during it: never below 0).
+#[inline]
+fn held() -> usize {
+    (LIVE.load(Relaxed).wrapping_sub(BASE.load(Relaxed)) as isize).max(0) as usize
+}
+
+#[inline]
+fn grew(by: usize) {
+    LIVE.fetch_add(by, Relaxed);
+    if ARMED.load(Relaxed) != 0 {
+        PEAK.fetch_max(held(), Relaxed);
+    }
+}
+
+/// Peak heap of the probe that was armed last (bytes above its baseline).
+pub fn peak_live() -> u64 {
+    PEAK.load(Relaxed) as u64
+}
 
 pub fn shared() -> Option<&'static Shared> {
     let p = SHARED.load(Relaxed);
@@ -110,6 +145,8 @@ pub struct Armed;
 
 impl Armed {
     pub fn new() -> Armed {
+        BASE.store(LIVE.load(Relaxed), Relaxed);
+        PEAK.store(0, Relaxed);
         ARMED.store(1, Relaxed);
         Armed
     }
@@ -118,6 +155,9 @@ impl Armed {
 impl Drop for Armed {
     fn drop(&mut self) {
         ARMED.store(0, Relaxed);
+        if let Some(s) = shared() {
+            s.max_probe_live_heap.fetch_max(PEAK.load(Relaxed) as u64, Relaxed);
+        }
     }
 }
 
@@ -126,7 +166,9 @@ fn refuse(size: usize, old: usize, is_realloc: bool) -> bool {
     if ARMED.load(Relaxed) == 0 {
         return false;
     }
-    if size < OBSERVE.load(Relaxed) && !(is_realloc && old >= RUNAWAY_OLD.load(Relaxed)) {
+    let grow = if is_realloc { size.saturating_sub(old) } else { size };
+    let over_cap = held().saturating_add(grow) > LIVE_CAP.load(Relaxed);
+    if !over_cap && size < OBSERVE.load(Relaxed) && !(is_realloc && old >= RUNAWAY_OLD.load(Relaxed)) {
         return false;
     }
     let sh = shared();
@@ -140,6 +182,8 @@ fn refuse(size: usize, old: usize, is_realloc: bool) -> bool {
         2
     } else if size >= REFUSE.load(Relaxed) {
         1
+    } else if over_cap {
+        4
     } else {
         return false;
     };
@@ -178,24 +222,41 @@ unsafe impl GlobalAlloc for Mon {
         if refuse(l.size(), 0, false) {
             return std::ptr::null_mut();
         }
-        sys_null(unsafe { System.alloc(l) }, l.size())
+        let p = sys_null(unsafe { System.alloc(l) }, l.size());
+        if !p.is_null() {
+            grew(l.size());
+        }
+        p
     }
 
     unsafe fn alloc_zeroed(&self, l: Layout) -> *mut u8 {
         if refuse(l.size(), 0, false) {
             return std::ptr::null_mut();
         }
-        sys_null(unsafe { System.alloc_zeroed(l) }, l.size())
+        let p = sys_null(unsafe { System.alloc_zeroed(l) }, l.size());
+        if !p.is_null() {
+            grew(l.size());
+        }
+        p
     }
 
     unsafe fn realloc(&self, ptr: *mut u8, l: Layout, new_size: usize) -> *mut u8 {
         if refuse(new_size, l.size(), true) {
             return std::ptr::null_mut();
         }
-        sys_null(unsafe { System.realloc(ptr, l, new_size) }, new_size)
+        let p = sys_null(unsafe { System.realloc(ptr, l, new_size) }, new_size);
+        if !p.is_null() {
+            if new_size >= l.size() {
+                grew(new_size - l.size());
+            } else {
+                LIVE.fetch_sub(l.size() - new_size, Relaxed);
+            }
+        }
+        p
     }
 
     unsafe fn dealloc(&self, ptr: *mut u8, l: Layout) {
+        LIVE.fetch_sub(l.size(), Relaxed);
         unsafe { System.dealloc(ptr, l) }
     }
 }
@@ -242,6 +303,8 @@ impl Shared {
         self.max_valid_cpu_us.store(0, Relaxed);
         self.max_debug_call_us.store(0, Relaxed);
         self.max_valid_debug_call_us.store(0, Relaxed);
+        self.max_probe_live_heap.store(0, Relaxed);
+        self.max_valid_live_heap.store(0, Relaxed);
         for k in &self.max_valid_by_kind {
             k.store(0, Relaxed);
         }
